@@ -364,6 +364,11 @@ YR_API void yr_scanner_destroy(YR_SCANNER* scanner)
   yr_free(scanner->profiling_info);
 #endif
 
+  // A scan suspended with ERROR_BLOCK_NOT_READY and never resumed still owns
+  // its notebook.
+  if (scanner->matches_notebook != NULL)
+    yr_notebook_destroy(scanner->matches_notebook);
+
   yr_free(scanner->rule_matches_flags);
   yr_free(scanner->ns_unsatisfied_flags);
   yr_free(scanner->required_eval);
@@ -500,6 +505,20 @@ YR_API int yr_scanner_scan_mem_blocks(
 
     FAIL_ON_ERROR(
         yr_get_configuration_uint32(YR_CONFIG_MAX_MATCH_DATA, &max_match_data));
+
+    // If a previous scan was suspended with ERROR_BLOCK_NOT_READY and the
+    // caller starts a new scan instead of resuming it, drop what the abandoned
+    // scan left behind (matches, flags and the notebook, which was leaked).
+    if (scanner->matches_notebook != NULL)
+    {
+      _yr_scanner_clean_matches(scanner);
+      yr_notebook_destroy(scanner->matches_notebook);
+      scanner->matches_notebook = NULL;
+    }
+
+    // The entry point belongs to the data being scanned, not to the scanner:
+    // a reused scanner must not report the entry point of a previous file.
+    scanner->entry_point = YR_UNDEFINED;
 
     result = yr_notebook_create(
         1024 * (sizeof(YR_MATCH) + max_match_data), &scanner->matches_notebook);
